@@ -154,7 +154,11 @@ CLAIMED = {
   "instances iosafe_no_sink, srcs_accounted, graph_complete, sinks_not_gates, gates_guard, compliance_table_resolved over the "
   "regenerated tables, hence iosafe_clean_sources_reach_no_sink. holes_empty (`holeSrcs = []`), hence iosafe_no_sink_through_gates in full: "
   "in a context requiring iosafe no iosafe-declared function reaches a sink by any feasible path, gates included "
-  "(hole_paths_counterexample: whenever the extractor does list an offending path, it is a real path).",
+  "(hole_paths_counterexample: whenever the extractor does list an offending path, it is a real path). Dynamic leg, sharded over worker processes with their own sentinel directories and a time budget "
+  "(a slow machine thins the enumeration, reported as planned vs done cases, and never raises an alarm; a single call that does not return is reported as a hang): every reachable Go function x flag sets x spellings, "
+  "plus context-edge spellings for the sink-reaching functions (called from __close handlers on error / normal exit / inner pcall exit, xpcall handlers, sort comparators, gsub callbacks, coroutines created outside and resumed inside, "
+  "__gc finalisers of objects created inside — an effect after the context has ended is keyed separately), plus a command-line leg: the golua command built from the tree under test run with -flags iosafe in every "
+  "order and with/without -cpulimit/-memlimit on a script attempting each effect class.",
   "Trusted: Lean kernel; extract/gofacts (go/packages + x/tools SSA, CHA for interface calls, VTA for function values, the AST "
   "reader of SolemnlyDeclareCompliance sites) — cross-checked each run against the flags the real runtime holds (hook "
   "VerifGoFunctionInfo); the by-name list of sinks and the two exempt edges listed in the evidence assumptions (File.cleanup -> os.Remove of golua's own "
@@ -165,11 +169,12 @@ CLAIMED = {
   "`decide` instance over the table of package-level variables written after init, regenerated from /repo by extract/gofacts; "
   "two-runtime replay (interleaved per statement, concurrent, thorough: race detector) against solo runs",
   "Proved in full (lean/GoluaVerif/Props/C20.lean): frame_noninterference and frame_noninterference_upto for ALL machines and "
-  "schedules (induction over the interleaving), runSolo_obs, shared_write_interferes_counterexample. Per-run: "
-  "shared_writers_accounted_partial — every (variable, post-init writer reachable from runtime.New / a loader / a registered Go "
-  "function) is in Spec.Isolation.allowlist (os.Std* streams, each justified) or is one of the two recorded defect pairs (lib/base.gcRunning and debug.SetGCPercent written by "
-  "collectgarbage; the math/rand and base.Load pairs were repaired in 0304cbf / 90be1b9 and no longer appear in the table); the full "
-  "statement sharedWriters ⊆ allowlist is false until collectgarbage is repaired (no_shared_writes_partial states it conditionally). Isolation of state hanging "
+  "schedules (induction over the interleaving), runSolo_obs, shared_write_interferes_counterexample. Per-run, by `decide` over the regenerated table: "
+  "shared_writers_allowed and no_shared_writes — every (package-level variable, run-time writer reachable from runtime.New / a loader / a registered Go function) is in "
+  "Spec.Isolation.allowlist (the os.Std* streams, each justified); full strength since the three repairs (math/rand source b64f94a, flags of shared GoFunctions cfa16e8, collectgarbage 9ffb107). The extractor follows "
+  "memory of a package-level variable through struct fields, composite literals, by-value copies of structs (their slices/maps/pointers still belong to the variable) and calls through function values. "
+  "Replays: ordered pairs of programs x interleaving schedules x goroutines; seven runtime configurations x ordered pairs x creation orders in clean child processes; per-runtime stdout and the process's stderr as part of the trace; "
+  "a concurrent stress of 8 runtimes on call-heavy programs against their solo traces. Isolation of state hanging "
   "off *Runtime (globals, string metatable, package.loaded, io defaults, quotas) rests on the replay only.",
   "Trusted: Lean kernel; the package-level-variable write analysis in extract/gofacts (taint over SSA; sound only up to its rules, "
   "see extract/gofacts/globals.go); the by-name list of process-wide state outside the module; the race detector only samples "
